@@ -594,10 +594,10 @@ struct SlistH
 enum
 {
     Q_PUSH_FORE = 1, Q_PUSH_BACK, Q_PULL_FORE, Q_PULL_BACK, Q_INSERT, Q_REMOVE, Q_PUSH_SORT, Q_SORT_FORE, Q_SORT_BACK,
-    Q_SWAP_ELEM, Q_SWAP_QUE, Q_DROP, Q_SETZ, Q_ACCESS
+    Q_SWAP_ELEM, Q_SWAP_QUE, Q_DROP, Q_SETZ, Q_ACCESS, Q_DIE
 };
 static const char *q_names[] = {"?", "push_fore", "push_back", "pull_fore", "pull_back", "insert", "remove", "push_sort", "sort_fore", "sort_back",
-                                "swap_", "swap", "drop", "setz", "access"};
+                                "swap_", "swap", "drop", "setz", "access", "die"};
 
 static inline unsigned char ebyte(unsigned char b0, size_t j) { return j == 0 ? b0 : (unsigned char)(b0 * 31u + j * 17u + 5u); }
 static void fill_elem(void *p, unsigned char b0, size_t siz) { for (size_t j = 0; j < siz; ++j) { ((unsigned char *)p)[j] = ebyte(b0, j); } }
@@ -1033,6 +1033,37 @@ struct QueH
     }
     void expand_faults(const std::string &key, xs::Sink &out)
     {
+        // destruction while the allocator refuses everything: it needs no memory, so every block is still released and every element destroyed
+        for (int with_dtor = 0; with_dtor < 2; ++with_dtor)
+        {
+            xs::Op tag{Q_DIE, with_dtor, 0, 0};
+            if (!out.enter(tag)) { continue; }
+            QueLive L;
+            make(L, key);
+            Ck ck;
+            ++fault_runs;
+            dtor_log.clear();
+            shim::arm(0, true);
+            a_que_die(L.q, with_dtor ? log_dtor : nullptr);
+            shim::disarm();
+            L.q = nullptr;
+            if (L.aux) { a_que_die(L.aux, nullptr); L.aux = nullptr; }
+            if (shim::st().live_blocks != 0) { ck.fail("leak", std::to_string(shim::st().live_blocks) + " block(s) still allocated after the queue was destroyed"); }
+            else if (!shim::st().error.empty()) { ck.fail("memory", shim::st().error); }
+            else if (with_dtor)
+            {
+                std::multiset<unsigned char> seen(dtor_log.begin(), dtor_log.end());
+                for (const QElem &e : L.m)
+                {
+                    auto it = seen.find(e.b0);
+                    if (it == seen.end()) { ck.fail("die-dtor", "destruction did not run the destructor on every element"); break; }
+                    seen.erase(it);
+                }
+            }
+            out.leave();
+            if (!ck.ok()) { out.viol(tag, std::string("que|die|oom@all|") + ck.cls, "every allocation request fails during the destruction of " + key_str(key) + ": " + ck.err); continue; }
+            out.succ(tag, key, "oom", "die");
+        }
         for (const xs::Op &o : menu(key))
         {
             long requests;
